@@ -48,6 +48,31 @@ Theorem C16_outer_spec : forall sa sb fa fb, pos sa -> pos sb ->
   exists m, outer A mul sa sb fa fb = Ok m /\ agrees A m (np_outer A mul sa sb fa fb).
 Proof. exact (outer_spec A mul). Qed.
 
+(* view::matmulv2 (the tile/reshape/transpose/reshape/multiply/sum pipeline), operands of rank >= 2: it yields a view
+   of NumPy's shape whose elements are the same defining sums — hence equal to view::matmul element by element *)
+Theorem C16_matmul_v2_spec : forall sa sb fa fb s,
+  (2 <= length sa)%nat -> (2 <= length sb)%nat -> pos sa -> pos sb ->
+  np_matmul_shape sa sb = Some s ->
+  exists m, matmul_v2 A zero add mul sa sb fa fb = Ok m /\ vshape m = s /\
+    forall i, inb i s -> vat m i = np_matmul_elem A zero add mul sa sb fa fb i
+                         /\ vat m i = matmul_elem A zero add mul sa sb fa fb i.
+Proof. exact (matmul_v2_v1_spec A zero add mul add_assoc add_0_r). Qed.
+
+(* PARTIAL — tensordot (explicit, normalised axes; the integer form is the special case handled by the same pipeline):
+   proved: the view is produced and has NumPy's shape.  NOT proved (correspondence only): the elements. *)
+Theorem C16_tensordot_shape_partial : forall sa sb fa fb la lb s, (1 <= length sa)%nat -> pos sa -> pos sb ->
+  np_tensordot_shape sa sb la lb = Some s ->
+  exists m, tensordot_gen A zero add mul sa sb fa fb
+              (tdot_transpose (length sa) la) (tdot_transpose (length sb) lb) (length la) = Ok m
+            /\ vshape m = s.
+Proof. exact (tensordot_shape_partial A zero add mul). Qed.
+
+(* PARTIAL — kron: proved: a returned view has NumPy's shape (the shape helper kron_dst_reshape is NumPy's rule).
+   NOT proved (correspondence only): that a view is always returned, and the elements. *)
+Theorem C16_kron_shape_partial : forall sa sb fa fb m, pos sa -> pos sb ->
+  kron A mul sa sb fa fb = Ok m -> vshape m = np_kron_shape sa sb.
+Proof. exact (kron_shape_partial A mul). Qed.
+
 (* diagonal / trace with offset >= 0 and (for trace) a non-empty diagonal, any pair of distinct axes, either sign *)
 Theorem C16_diagonal_spec : forall s f off ax1 ax2 a1 a2 v,
   norm_axis (length s) ax1 = Some a1 -> norm_axis (length s) ax2 = Some a2 ->
@@ -68,6 +93,9 @@ Print Assumptions C16_matmul_shape_spec.
 Print Assumptions C16_matmul_elem_spec.
 Print Assumptions C16_vecdot_spec.
 Print Assumptions C16_inner_spec.
+Print Assumptions C16_matmul_v2_spec.
+Print Assumptions C16_tensordot_shape_partial.
+Print Assumptions C16_kron_shape_partial.
 Print Assumptions C16_dot_spec.
 Print Assumptions C16_outer_spec.
 Print Assumptions C16_diagonal_spec.
@@ -114,3 +142,9 @@ Example C16_nonvacuous_trace :
   norm_axis 3 (-1) = Some 2%nat /\ norm_axis 3 0 = Some 0%nat /\ diag_extent [2; 3; 3] 1 2 0 = 1
   /\ option_map (@vshape Z) (z_np_trace [2; 3; 3] (iota [2; 3; 3]) 1 2 0) = Some [3].
 Proof. repeat split; reflexivity. Qed.
+Example C16_nonvacuous_v2_tensordot_kron :
+  (exists m, z_matmul_v2 [2; 1; 2; 3] [3; 3; 2] (iota [2; 1; 2; 3]) (iota [3; 3; 2]) = Ok m /\ vshape m = [2; 3; 2; 2]
+             /\ vat m [1; 2; 1; 0] = 10 * 13 + 11 * 15 + 12 * 17)
+  /\ np_tensordot_shape [2; 3; 4] [4; 5; 3] [2; 1]%nat [0; 2]%nat = Some [2; 5]
+  /\ (exists m, z_kron [2] [3; 2] (iota [2]) (iota [3; 2]) = Ok m /\ vshape m = [3; 4]).
+Proof. split; [|split]; [eexists; repeat split; reflexivity | reflexivity | eexists; split; reflexivity]. Qed.
